@@ -16,7 +16,7 @@ From Rumqtt Require Import Router.WindowFrame Router.Window Router.WindowStep Ro
                            Router.ExactSweep Router.ExactThm.
 From Rumqtt Require Router.Session Router.SessionInv Router.SessionIds Router.IsolationFrame.
 From Rumqtt Require Import Router.TraceRun Router.TraceRunHeld Router.TraceRunInv Router.TraceRunPkt Router.TraceRunSweep
-                           Router.TraceRunStep Router.TraceRunThm Router.TraceRunContent Router.TraceResume Router.TraceResumeWin.
+                           Router.TraceRunBound Router.TraceRunStep Router.TraceRunThm Router.TraceRunContent Router.TraceResume Router.TraceResumeWin.
 From Rumqtt Require Import Router.Model Router.RunDefs.
 From Coq Require Import List ZifyBool ZifyN ZifyNat Sorted.
 Import ListNotations.
@@ -67,55 +67,6 @@ Definition PE (ta : list dev) (ev : dev) : Prop :=
       exists a, last_opt (ktrace (k, f, j) ta) = Some a /\ r = match w with x :: _ => x | [] => nxt a end
   | _ => True
   end.
-
-(* ------------------------------------------------------------------ the requests a removal saves *)
-Lemma waiters_remove_in id : forall fuel w w' q,
-  waiters_remove fuel w id = (w', q) -> forall rq, In rq q -> In (id, rq) w.
-Proof.
-  induction fuel as [|fuel IH]; intros w w' q H rq Hin; cbn [waiters_remove] in H; [inversion H; subst; destruct Hin|].
-  destruct (position_id w id 0) as [k|] eqn:Ep; [|inversion H; subst; destruct Hin].
-  destruct (swap_remove_back w k) as [[[c rq1] w1]|] eqn:Es; [|inversion H; subst; destruct Hin].
-  destruct (waiters_remove fuel w1 id) as [w2 rqs] eqn:Er. inversion H; subst; clear H.
-  destruct (swap_remove_back_in _ _ _ _ Es) as [Hin1 Hsub].
-  destruct Hin as [<- | Hin].
-  - destruct (position_id_nth _ _ _ _ Ep) as (x & Hx & Hfx). rewrite N.sub_0_r in Hx.
-    pose proof (IsolationFrame.swap_remove_back_nth _ _ _ _ Es) as Hn. rewrite Hn in Hx. inversion Hx; subst x. cbn [fst] in Hfx. now subst c.
-  - apply Hsub. eapply IH; eassumption.
-Qed.
-
-Lemma clean_items_in id : forall items items' q,
-  clean_items items id = (items', q) -> forall rq, In rq q -> exists d, In (Some d) items /\ In (id, rq) (d_waiters d).
-Proof.
-  induction items as [|[d|] r IH]; intros items' q H rq Hin; cbn [clean_items] in H.
-  - inversion H; subst. destruct Hin.
-  - destruct (waiters_remove (S (length (d_waiters d))) (d_waiters d) id) as [w' q1] eqn:E1.
-    destruct (clean_items r id) as [r' q2] eqn:E2. inversion H; subst; clear H. apply in_app_or in Hin as [Hin | Hin].
-    + exists d. split; [now left|]. eapply waiters_remove_in; eassumption.
-    + destruct (IH _ _ eq_refl _ Hin) as (d0 & H1 & H2). exists d0. split; [now right|exact H2].
-  - destruct (clean_items r id) as [r' q2] eqn:E2. inversion H; subst; clear H.
-    destruct (IH _ _ eq_refl _ Hin) as (d0 & H1 & H2). exists d0. split; [now right|exact H2].
-Qed.
-
-Lemma In_nthN {X} (x : X) : forall l, In x l -> exists k, nthN l k = Some x.
-Proof.
-  induction l as [|y l IH]; intros H; [destruct H|]. destruct H as [-> | H].
-  - exists 0. reflexivity.
-  - destruct (IH H) as (k & Hk). exists (k + 1). cbn [nthN]. replace (k + 1 =? 0) with false by lia.
-    now replace (k + 1 - 1) with k by lia.
-Qed.
-
-Lemma dl_clean_waits dl id rq : In rq (snd (dl_clean dl id)) -> Waits dl id rq.
-Proof.
-  unfold dl_clean. destruct (clean_items (sl_items (dl_native dl)) id) as [items q] eqn:E. cbn [snd]. intros Hin.
-  destruct (clean_items_in _ _ _ _ E _ Hin) as (d & Hd & Hw). destruct (In_nthN _ _ Hd) as (k & Hk).
-  exists k, d. split; [|exact Hw]. unfold nget, slab_get. now rewrite Hk.
-Qed.
-
-Lemma last_opt_some {X} (l : list X) : l <> [] -> exists a, last_opt l = Some a.
-Proof.
-  induction l as [|x l IH]; [contradiction|]. intros _. destruct l as [|y l]; [exists x; reflexivity|].
-  destruct IH as (a & Ha); [discriminate|]. exists a. exact Ha.
-Qed.
 
 (** the end markers of one removal *)
 Lemma disc_ei st id reason st' tr :
@@ -300,7 +251,7 @@ Lemma ei_step st orc o st' out evs tr :
   (G -> WI L i st tr) -> EInv (PE L i G) tr -> (G -> NoShare L i st) ->
   step_with_d st orc o = Ok (st', out, evs) -> (G -> WI L i st' (tr ++ evs)) /\ EInv (PE L i G) (tr ++ evs).
 Proof.
-  intros [[[HI Hn] HD] HC HL HDI] HB Hwf HW HE HN H. unfold step_with_d in H.
+  intros [[[HI Hn] HD] HC HL HDI HBI] HB Hwf HW HE HN H. unfold step_with_d in H.
   apply bind_ok in H as ([[st1 out1] evs1] & H1 & H). destruct (r_oracle st1); [|discriminate]. inv_ok.
   eapply (ei_step_d (set_r_oracle st orc)); [| | | | | | | | |exact H1].
   - split; [split; [apply RInv_set_oracle; exact HI|exact Hn]|]. eapply dfr_DevE; [exact HD|dfr_triv].
@@ -372,7 +323,8 @@ Theorem ei_from_init cfg st0 ops st tr :
   (G -> WI L i st tr) /\ EInv (PE L i G) tr.
 Proof.
   intros (Hcfg & Hmo & Hi & Hwf & Hr & HB) HA. apply (run_ei ops st0 st [] tr); try assumption.
-  - constructor; [eapply rinve_init; eassumption|eapply init_cinv; eassumption|apply (WindowStep.init_inv _ _ Hi)|eapply di_init; eassumption].
+  - constructor; [eapply rinve_init; eassumption|eapply init_cinv; eassumption|apply (WindowStep.init_inv _ _ Hi)|eapply di_init; eassumption
+                 |eapply bi_init; eassumption].
   - intros _ c o Ho. exfalso. unfold init in Hi. apply bind_ok in Hi as (dl & _ & Hi). inv_ok. discriminate.
   - intros ta ev tb E. destruct ta; discriminate.
 Qed.
